@@ -133,6 +133,19 @@ def build_pool():
     for fmt in sorted(c08.MANY):
         fname, recipes = c08.MANY[fmt]
         pool.append({"op": "dump_many", "fmt": fmt, "out": fname, "src": recipes[0]["file"]})
+    # inputs whose arithmetic overflows / divides by zero (results flip if the floating-point error state leaks)
+    far_mol2 = unk_mol2.replace("Xx1        0.0000    0.0000    0.0000 Xx", "C1    1.0e308    0.0000    0.0000 C ").replace("Qq2", "O2 ").replace(" Qq ", " O  ").replace("zz", "1")
+    far_xyz = "2\nfar away\nH 1.0e308 0.0 0.0\nH 0.0 0.0 0.7\n"
+    flat_chgcar = "flat cell\n   1.0\n 1.0 0.0 0.0\n 2.0 0.0 0.0\n 0.0 0.0 1.0\n   H\n   1\nDirect\n 0.0 0.0 0.0\n\n 1 1 1\n 1.0\n"
+    for fname, text in (("far.mol2", far_mol2), ("far.xyz", far_xyz), ("CHGCAR.flat", flat_chgcar)):
+        pool.append({"op": "load_one", "file": fname, "fmt": None, "inline": text})
+    # a QCSchema molecule with several keys the schema does not know (passed through verbatim on dump)
+    import json as _json
+
+    mol_json = _json.loads(common.corpus_bytes("CuSCN_molecule.json"))
+    for k, v in (("zzz_custom", 1), ("aaa_custom", [1, 2]), ("mmm_custom", {"b": 1, "a": 2}), ("kkk_custom", "x"), ("ddd_custom", 2.5)):
+        mol_json[k] = v
+    pool.append({"op": "convert", "file": "custom_keys.json", "out": "c.json", "inline": _json.dumps(mol_json, indent=1), "infmt": "json_qcschema", "outfmt": "json_qcschema"})
     # dumps that fail half-way because of the disk (a failed call must not leave state behind either)
     for fmt in ("xyz", "molden", "wfx", "fchk", "json_qcschema", "mol2", "pdb"):
         fname, recipes = c08.ONE[fmt]
@@ -224,7 +237,7 @@ def exec_call(call, prep, disk, prefix):
         elif op == "convert":
             out = prefix + call["out"]
             fmt = "json_qcschema" if call["file"].endswith(".json") else None
-            convert(path, out, many=call.get("many", False), infmt=fmt, allow_changes=call.get("allow_changes", False))
+            convert(path, out, many=call.get("many", False), infmt=fmt, outfmt=call.get("outfmt"), allow_changes=call.get("allow_changes", False))
             rec = ["ok", common.short(disk.get(out) or b"", 16)]
     except Exception as exc:  # noqa: BLE001 - part of the outcome
         cause = exc.__cause__
@@ -317,7 +330,9 @@ def _call_name(call):
 
 
 def _save_warn_state():
-    return (warnings.filters[:], warnings.showwarning, getattr(warnings, "_showwarnmsg_impl", None))
+    import numpy as np
+
+    return (warnings.filters[:], warnings.showwarning, getattr(warnings, "_showwarnmsg_impl", None), np.geterr())
 
 
 def _restore_warn_state(st):
@@ -328,6 +343,9 @@ def _restore_warn_state(st):
         warnings._showwarnmsg_impl = st[2]
     if hasattr(warnings, "_filters_mutated"):
         warnings._filters_mutated()
+    import numpy as np
+
+    np.seterr(**st[3])  # the floating-point error state of the main thread is process state as well
     return changed
 
 
@@ -441,6 +459,9 @@ def execute(trace):
     global POOL, REFS
     if REFS is None:
         _ensure_refs_for(trace)
+    if trace["mode"] == "fresh":
+        bad = fresh_crosscheck(POOL or build_pool(), REFS, [trace["calls"][0]["id"]], hashseeds=("1", "4242", "99991", "7"))
+        return [_v("fresh_interpreter_differs", f"fresh interpreter gives {rec}, pristine fork {ref}", trace, _call_name(trace["calls"][0])) for _c, ref, rec in bad]
     if trace["mode"] == "history":
         return run_history(trace, REFS)[0]
     return run_threads(trace, REFS, rng=common.rng_for("replay"))[0]
@@ -449,7 +470,7 @@ def execute(trace):
 def _ensure_refs_for(trace):
     """Replay in a fresh interpreter: compute references for the calls of the trace."""
     global REFS
-    calls = trace["calls"] if trace["mode"] == "history" else [c for cl in trace["clients"] for c in cl]
+    calls = trace["calls"] if "calls" in trace else [c for cl in trace["clients"] for c in cl]
     uniq = {c["id"]: c for c in calls}
     REFS = compute_refs(list(uniq.values()))
 
@@ -478,7 +499,7 @@ print("FRESH " + json.dumps(out))
 """
 
 
-def fresh_crosscheck(pool, refs, ids):
+def fresh_crosscheck(pool, refs, ids, hashseeds=("0",)):
     """Validates the shortcut 'fresh interpreter = fork of a pristine process': each sampled call is executed
     as the only call of a really fresh python and must give the reference record."""
     import json
@@ -487,7 +508,8 @@ def fresh_crosscheck(pool, refs, ids):
 
     def one(cid):
         code = FRESH_SNIPPET.format(repo=common.REPO, verif=common.VERIF, ids=[cid])
-        env = {**os.environ, "PYTHONHASHSEED": "0", "PYTHONDONTWRITEBYTECODE": "1"}
+        # a fresh interpreter of a user has an arbitrary string-hash seed: results must not depend on it
+        env = {**os.environ, "PYTHONHASHSEED": hashseeds[cid % len(hashseeds)], "PYTHONDONTWRITEBYTECODE": "1"}
         cp = subprocess.run([sys.executable, "-c", code], capture_output=True, text=True, env=env, timeout=300)
         for line in cp.stdout.splitlines():
             if line.startswith("FRESH "):
@@ -503,6 +525,7 @@ def fresh_crosscheck(pool, refs, ids):
 
 
 FRESH_CHECKED = 0
+FRESH_BAD = []  # (call id, reference record, record in a fresh interpreter under another hash seed)
 
 
 def plan(tier, seed, args):
@@ -510,13 +533,17 @@ def plan(tier, seed, args):
     POOL = build_pool()
     REFS = compute_refs(POOL)
     rng = common.rng_for(seed, ID, "fresh")
-    ids = sorted(rng.sample(range(len(POOL)), 6 if tier == "quick" else 48))
-    bad = fresh_crosscheck(POOL, REFS, ids)
-    if bad:
-        raise RuntimeError(f"HARNESS: fork-of-pristine reference differs from a fresh interpreter for calls {bad[:2]}")
+    ids = set(rng.sample(range(len(POOL)), 6 if tier == "quick" else 48))
+    # QCSchema code iterates over Python sets: always cross-check those calls under other hash seeds
+    ids |= {c["id"] for c in POOL if ".json" in (c.get("file") or "") or c.get("fmt") == "json_qcschema"}
+    ids = sorted(ids)
+    bad = fresh_crosscheck(POOL, REFS, ids, hashseeds=("1", "4242", "99991", "31337"))
+    FRESH_BAD.extend(bad)
     FRESH_CHECKED = len(ids)
     n = args.runs or (700 if tier == "quick" else 12000)
     tasks = [{"run": i, "seed": seed, "tier": tier} for i in range(n)]
+    if FRESH_BAD:
+        tasks.insert(0, {"run": -1, "seed": seed, "tier": tier, "fresh_bad": [(cid, ref, rec) for cid, ref, rec in FRESH_BAD]})
     # Adaptive targeting: calls that write process-global state when run alone (none on a tree where the property
     # holds trivially) are interleaved pairwise, pre-empting right after every global store.
     ids = sorted(STATEFUL)
@@ -559,6 +586,13 @@ def gen_trace(rng):
 def run_task(task):
     rng = common.rng_for(task["seed"], ID, task["run"])
     stats = Stats()
+    if "fresh_bad" in task:
+        viols = []
+        for cid, ref, rec in task["fresh_bad"]:
+            call = POOL[cid]
+            viols.append(_v("fresh_interpreter_differs", f"{_call_name(call)} gave {rec} alone in a fresh interpreter (other PYTHONHASHSEED) but {ref} in the "
+                            "pristine fork: the result depends on more than the arguments", {"mode": "fresh", "calls": [call]}, _call_name(call)))
+        return {"n": len(viols), "digest": "fresh", "odigest": "fresh", "violations": viols, "stats": stats.export(), "sample": None}
     if "pair" in task:
         a, b = task["pair"]
         extra = [[copy.deepcopy(POOL[rng.choice(task["pair"])])]] if rng.random() < 0.3 else []
